@@ -29,18 +29,21 @@ struct Medium {
     size_t octets_written = 0;
     std::vector<size_t> write_boundaries;   // cumulative octet counts after each complete write
     size_t dirty = MSIZE;              // highest index that may differ from the pattern
+    // re-entrant driver: before it answers the faulty call, the driver validates a second record (a mirror) through the library
+    void (*nested)() = nullptr; bool in_nested = false; int nested_ran = 0;
     void reset_pattern(size_t upto = MSIZE) { size_t n = std::max(upto, dirty); if (n > MSIZE) n = MSIZE; for (size_t i = 0; i < n; i++) mem[i] = (uint8_t)(0x30 + i * 7); dirty = upto; }
-    void clear_run() { log.clear(); outside = false; calls = 0; fault_at = -1; fault_hit = false; crash_budget = -1; crashed = false; octets_written = 0; write_boundaries.clear(); }
+    void clear_run() { log.clear(); outside = false; calls = 0; fault_at = -1; fault_hit = false; crash_budget = -1; crashed = false; octets_written = 0; write_boundaries.clear(); nested = nullptr; in_nested = false; nested_ran = 0; }
 };
 inline Medium &M() { static Medium m; return m; }
 
 inline size_t faulty(size_t n, bool &hit) {
     Medium &m = M();
     hit = false;
-    if (n == 0) return 0;
+    if (n == 0 || m.in_nested) return n;
     size_t idx = m.calls++;
     if (m.fault_at >= 0 && (long)idx == m.fault_at) {
         hit = true; m.fault_hit = true;
+        if (m.nested) { m.in_nested = true; m.nested(); m.in_nested = false; m.nested_ran++; }
         switch (m.fault_kind) {
         case 0: return 0;
         case 1: return n - 1;
@@ -54,8 +57,8 @@ inline size_t faulty(size_t n, bool &hit) {
 inline size_t med_read(void *dst, uint32_t addr, size_t n) {
     Medium &m = M();
     vp::tick();
-    m.log.push_back({false, addr, n});
-    if ((uint64_t)addr + n > MSIZE || addr < m.lo || (uint64_t)addr + n > m.hi) { m.outside = true; if ((uint64_t)addr + n > MSIZE) return 0; }
+    if (!m.in_nested) m.log.push_back({false, addr, n});
+    if (!m.in_nested && ((uint64_t)addr + n > MSIZE || addr < m.lo || (uint64_t)addr + n > m.hi)) { m.outside = true; if ((uint64_t)addr + n > MSIZE) return 0; }
     bool hit; size_t k = faulty(n, hit);
     memcpy(dst, m.mem + addr, k);
     return k;
